@@ -523,8 +523,12 @@ pub struct TdCase {
 }
 
 pub fn td_case() -> impl Strategy<Value = TdCase> {
-    (c10::k_strategy(), proptest::collection::vec(c10::run_strategy(3000), 0..4), proptest::collection::vec(c10::run_strategy(400), 0..3), any::<u64>())
-        .prop_map(|(k, runs, more, qseed)| TdCase { k, runs, more, qseed })
+    let ordinary = (c10::k_strategy(), proptest::collection::vec(c10::run_strategy(3000), 0..4), proptest::collection::vec(c10::run_strategy(400), 0..3), any::<u64>())
+        .prop_map(|(k, runs, more, qseed)| TdCase { k, runs, more, qseed });
+    // rare and large: k near the top of its u16 range with streams long enough for more than 65535 centroids
+    let big = (prop_oneof![Just(32762u16), Just(32763), Just(40000), Just(60000), Just(65534), Just(65535), 501u16..=65535], prop_oneof![1 => 1000u32..=100_000, 1 => 1_000_000u32..=2_200_000], any::<u64>(), proptest::collection::vec(c10::run_strategy(400), 0..2), any::<u64>())
+        .prop_map(|(k, n, seed, more, qseed)| TdCase { k, runs: vec![c10::Run { shape: c10::Shape::Uniform, n, seed, exp10: 0, shift: 0 }], more, qseed });
+    prop_oneof![600 => ordinary, 1 => big]
 }
 
 fn td_queries(t: &mut TDigestMut, min: f64, max: f64, qseed: u64) -> Vec<u64> {
